@@ -81,3 +81,18 @@ def run(case, ctx):
     return {"nontrivial": iv != 0 and len(before["notes"]) > 0, "fails": fails,
             "shape": (case["zone"], "bar" if case["bar"] else "seq", bool(ret), iv % 12 == 0, bool(haskey)),
             "observed": {"interval": iv, "returned": bool(ret), "notes": len(after["notes"])}}
+
+
+def _corpus_body(rng, k):
+    from vmon import corpus
+    desc, w = corpus.window(rng, min_len=48, max_len=400)
+    iv = rng.choice(INTERVALS) if rng.random() < 0.8 else rng.randint(-130, 130)
+    desc["interval"] = iv
+    n = len(obs(w)["notes"])
+    w.transpose(iv)
+    return desc, iv != 0 and n > 0
+
+
+def phases(tier):
+    from vmon import corpus
+    return [("corpus", corpus.phase(200, 15000, _corpus_body))]
